@@ -64,11 +64,25 @@ def statelessTy : GoTy → Bool
 
 /-! ## destinations with parts: a struct for a UDT column, `[n]T` for a list / set column -/
 
-/-- which struct fields the fields of a UDT value write (the loop of unmarshalUDT without the decoding);
+/-- which struct fields the reset of the missing fields (`zeroRest`: the value's data is used up before the type's
+    fields are — repair of KF-C04-7) writes. `wrote`: the fields the value itself has written.
+    `none`: a field the value has written is reset again (the type names the same struct field twice): C12's decode
+    model of a FRESH struct (Marshal.unmarshalUdtStruct), where the reset is otherwise a no-op, does not describe it -/
+def zeroMask (fnames : List String) (gs : List GoTy) (wrote : List Bool) : List String → List CqlTy → List Bool → Option (List Bool)
+  | name :: names, _ :: ts, mask =>
+    (match lookupIdx name fnames 0 with
+     | none => zeroMask fnames gs wrote names ts mask
+     | some i => (match gs[i]? with
+       | none => zeroMask fnames gs wrote names ts mask
+       | some _ => if wrote[i]? = some true then none else zeroMask fnames gs wrote names ts (mask.set i true)))
+  | _, _, mask => some mask
+
+/-- which struct fields a UDT value determines (the loop of unmarshalUDT without the decoding): the fields its own
+    fields write, and — a value with fewer fields than the type — the fields the reset of the missing fields writes;
     `none`: a written field falls under the flat excluded condition -/
 def udtMask (fnames : List String) (gs : List GoTy) : List String → List CqlTy → FrameRead.Bytes → List Bool → Option (List Bool)
   | name :: names, t :: ts, data, mask =>
-    if data = [] then some mask
+    if data = [] then zeroMask fnames gs mask (name :: names) (t :: ts) mask
     else if ValueSpec.shorter data 4 then some mask
     else (match readBytesM data with
      | none => some mask
@@ -81,9 +95,11 @@ def udtMask (fnames : List String) (gs : List GoTy) : List String → List CqlTy
   | _, _, _, mask => some mask
 
 /-- a UDT value into a struct that holds another row's value: excluded unless the value is null / empty (the struct
-    is reset) or the value's fields WRITE EVERY FIELD OF THE STRUCT (a value with fewer fields than the type, or a
-    struct field the type does not name, leaves a field as it was: KF-C04-7) and no written field is an empty
-    text-family value into a `[]byte` field (KF-C04-6) -/
+    is reset) or EVERY FIELD OF THE STRUCT IS NAMED BY A FIELD OF THE TYPE the loop reaches — written from the value,
+    or reset because the value carries fewer fields than the type (repair of KF-C04-7: a short value is no longer
+    excluded) — and no written field is an empty text-family value into a `[]byte` field (KF-C04-6) / a nested
+    in-place composite. What stays excluded besides KF-C04-6 is not a finding: a struct field that NO field of the
+    column's type names is the application's own field, a non-empty value never touches it (fresh struct: zero). -/
 def udtSens (names : List String) (ts : List CqlTy) (fnames : List String) (gs : List GoTy) (data : Option FrameRead.Bytes) : Bool :=
   if dataBytes data = [] then false
   else match udtMask fnames gs names ts (dataBytes data) (List.replicate gs.length false) with
@@ -114,22 +130,100 @@ def URel (L : Nat) (a b : LRes (List GoVal)) (m' : List Bool) : Prop :=
   | .unmodelled, .unmodelled => True
   | _, _ => False
 
+theorem zeroOfs_eq_map (gs : List GoTy) : zeroOfs gs = gs.map zeroOf := by
+  induction gs with
+  | nil => simp [zeroOfs]
+  | cons g gs ih => simp [zeroOfs, ih]
+
+theorem zeroOfs_getElem? (gs : List GoTy) (i : Nat) (g : GoTy) (h : gs[i]? = some g) :
+    (zeroOfs gs)[i]? = some (zeroOf g) := by
+  rw [zeroOfs_eq_map, List.getElem?_map, h]; rfl
+
+/-- the reset of the missing fields on the reused struct `acc1` against the untouched fresh struct `acc2` (which
+    still holds zero values wherever the value wrote nothing): they agree on every field `m'` marks -/
+theorem zero_rel (fnames : List String) (gs : List GoTy) (wrote : List Bool) (acc2 : List GoVal)
+    (hw : wrote.length = gs.length)
+    (h5 : ∀ j : Nat, wrote[j]? = some false → acc2[j]? = (zeroOfs gs)[j]?) :
+    ∀ (names : List String) (ts : List CqlTy) (acc1 : List GoVal) (mask m' : List Bool),
+    acc1.length = gs.length → mask.length = gs.length →
+    (∀ j : Nat, mask[j]? = some true → acc1[j]? = acc2[j]?) →
+    zeroMask fnames gs wrote names ts mask = some m' →
+    (zeroRest fnames gs names ts acc1).length = gs.length ∧ m'.length = gs.length ∧
+      ∀ j : Nat, m'[j]? = some true → (zeroRest fnames gs names ts acc1)[j]? = acc2[j]? := by
+  intro names
+  induction names with
+  | nil =>
+    intro ts acc1 mask m' h1 h3 h4 hm
+    simp only [zeroMask] at hm
+    cases hm
+    simp only [zeroRest]
+    exact ⟨h1, h3, h4⟩
+  | cons name names ih =>
+    intro ts acc1 mask m' h1 h3 h4 hm
+    cases ts with
+    | nil =>
+      simp only [zeroMask] at hm
+      cases hm
+      simp only [zeroRest]
+      exact ⟨h1, h3, h4⟩
+    | cons t ts =>
+      simp only [zeroMask] at hm
+      rw [zeroRest]
+      cases hl : lookupIdx name fnames 0 with
+      | none =>
+        rw [hl] at hm
+        simp only at hm ⊢
+        exact ih ts acc1 mask m' h1 h3 h4 hm
+      | some i =>
+        rw [hl] at hm
+        simp only at hm ⊢
+        cases hg : gs[i]? with
+        | none =>
+          rw [hg] at hm
+          simp only at hm ⊢
+          exact ih ts acc1 mask m' h1 h3 h4 hm
+        | some g =>
+          rw [hg] at hm
+          simp only at hm ⊢
+          have hi : i < gs.length := (List.getElem?_eq_some_iff.mp hg).1
+          by_cases hwi : wrote[i]? = some true
+          · simp [hwi] at hm
+          · simp only [hwi, if_false] at hm
+            have hwf : wrote[i]? = some false := by
+              rw [List.getElem?_eq_getElem (by omega)] at hwi ⊢
+              cases hb : wrote[i] <;> simp_all
+            have hz : acc2[i]? = some (zeroOf g) := by rw [h5 i hwf]; exact zeroOfs_getElem? gs i g hg
+            apply ih ts (acc1.set i (zeroOf g)) (mask.set i true) m' (by simp [h1]) (by simp [h3]) _ hm
+            intro j hj
+            by_cases hji : j = i
+            · subst hji
+              rw [hz]
+              simp [h1, hi]
+            · have : mask[j]? = some true := by
+                rw [List.getElem?_set] at hj
+                simp [Ne.symm hji] at hj
+                exact hj
+              rw [List.getElem?_set]
+              simp [Ne.symm hji]
+              exact h4 j this
+
 theorem udt_rel (p : Nat) (fnames : List String) (gs : List GoTy) :
     ∀ (names : List String) (ts : List CqlTy) (data : FrameRead.Bytes) (acc1 acc2 : List GoVal) (mask m' : List Bool),
     acc1.length = gs.length → acc2.length = gs.length → mask.length = gs.length →
     (∀ j : Nat, mask[j]? = some true → acc1[j]? = acc2[j]?) →
+    (∀ j : Nat, mask[j]? = some false → acc2[j]? = (zeroOfs gs)[j]?) →
     udtMask fnames gs names ts data mask = some m' →
     URel gs.length (udtInto p names ts fnames gs data acc1) (unmarshalUdtStruct p names ts fnames gs data acc2) m' := by
   intro names
   induction names with
   | nil =>
-    intro ts data acc1 acc2 mask m' h1 h2 h3 h4 hm
+    intro ts data acc1 acc2 mask m' h1 h2 h3 h4 h5 hm
     simp only [udtMask] at hm
     cases hm
     simp [udtInto, unmarshalUdtStruct, URel, h1, h2, h3]
     exact h4
   | cons name names ih =>
-    intro ts data acc1 acc2 mask m' h1 h2 h3 h4 hm
+    intro ts data acc1 acc2 mask m' h1 h2 h3 h4 h5 hm
     cases ts with
     | nil =>
       simp only [udtMask] at hm
@@ -141,9 +235,8 @@ theorem udt_rel (p : Nat) (fnames : List String) (gs : List GoTy) :
       rw [udtInto, unmarshalUdtStruct]
       by_cases hd : data = []
       · simp only [hd, if_true] at hm ⊢
-        cases hm
-        simp [URel, h1, h2, h3]
-        exact h4
+        obtain ⟨z1, z2, z3⟩ := zero_rel fnames gs mask acc2 h3 h5 (name :: names) (t :: ts) acc1 mask m' h1 h3 h4 hm
+        exact ⟨z1, h2, z2, z3⟩
       · simp only [hd, if_false] at hm ⊢
         by_cases hs : ValueSpec.shorter data 4 = true
         · simp only [hs, if_true] at hm ⊢
@@ -160,7 +253,7 @@ theorem udt_rel (p : Nat) (fnames : List String) (gs : List GoTy) :
             | none =>
               rw [hl] at hm
               simp only at hm ⊢
-              exact ih ts r acc1 acc2 mask m' h1 h2 h3 h4 hm
+              exact ih ts r acc1 acc2 mask m' h1 h2 h3 h4 h5 hm
             | some i =>
               rw [hl] at hm
               simp only at hm ⊢
@@ -168,7 +261,7 @@ theorem udt_rel (p : Nat) (fnames : List String) (gs : List GoTy) :
               | none =>
                 rw [hg] at hm
                 simp only at hm ⊢
-                exact ih ts r acc1 acc2 mask m' h1 h2 h3 h4 hm
+                exact ih ts r acc1 acc2 mask m' h1 h2 h3 h4 h5 hm
               | some g =>
                 rw [hg] at hm
                 simp only at hm ⊢
@@ -185,18 +278,31 @@ theorem udt_rel (p : Nat) (fnames : List String) (gs : List GoTy) :
                   cases hres : withPtr (unmarshalBase p t) g item with
                   | ok v =>
                     simp only
-                    apply ih ts r (acc1.set i v) (acc2.set i v) (mask.set i true) m' (by simp [h1]) (by simp [h2]) (by simp [h3]) _ hm
-                    intro j hj
-                    by_cases hji : j = i
-                    · subst hji
-                      simp [h1, h2, hi]
-                    · have : mask[j]? = some true := by
+                    apply ih ts r (acc1.set i v) (acc2.set i v) (mask.set i true) m' (by simp [h1]) (by simp [h2]) (by simp [h3]) _ _ hm
+                    · intro j hj
+                      by_cases hji : j = i
+                      · subst hji
+                        simp [h1, h2, hi]
+                      · have : mask[j]? = some true := by
+                          rw [List.getElem?_set] at hj
+                          simp [Ne.symm hji] at hj
+                          exact hj
+                        rw [List.getElem?_set, List.getElem?_set]
+                        simp [Ne.symm hji]
+                        exact h4 j this
+                    · intro j hj
+                      have hji : j ≠ i := by
+                        intro hji
+                        subst hji
+                        rw [List.getElem?_set] at hj
+                        simp [h3, hi] at hj
+                      have : mask[j]? = some false := by
                         rw [List.getElem?_set] at hj
                         simp [Ne.symm hji] at hj
                         exact hj
-                      rw [List.getElem?_set, List.getElem?_set]
+                      rw [List.getElem?_set]
                       simp [Ne.symm hji]
-                      exact h4 j this
+                      exact h5 j this
                   | err => simp [URel]
                   | crash => simp [URel]
                   | unmodelled => simp [URel]
@@ -209,7 +315,8 @@ theorem zeroOfs_length (gs : List GoTy) : (zeroOfs gs).length = gs.length := by
 theorem fit_length (n : Nat) (l : List GoVal) : (fit n l).length = n := by
   simp [fit]
 
-/-- when the value's fields write every field of the struct, the struct's earlier contents do not matter -/
+/-- when the value determines every field of the struct (written, or reset as missing), the struct's earlier contents
+    do not matter -/
 theorem udt_fresh (p : Nat) (names : List String) (ts : List CqlTy) (fnames : List String) (gs : List GoTy)
     (data : FrameRead.Bytes) (prevs : List GoVal) (k : List GoVal → GoVal) (m' : List Bool)
     (hm : udtMask fnames gs names ts data (List.replicate gs.length false) = some m') (hall : m'.all id = true) :
@@ -219,7 +326,7 @@ theorem udt_fresh (p : Nat) (names : List String) (ts : List CqlTy) (fnames : Li
       | .ok vs _ => URes.ok (k vs) | .err => .err | .crash => .crash | .unmodelled => .unmodelled) := by
   have hrel := udt_rel p fnames gs names ts data (fit gs.length prevs) (zeroOfs gs) (List.replicate gs.length false) m'
     (fit_length _ _) (zeroOfs_length gs) (by simp)
-    (by intro j hj; rw [List.getElem?_replicate] at hj; split at hj <;> simp at hj) hm
+    (by intro j hj; rw [List.getElem?_replicate] at hj; split at hj <;> simp at hj) (fun _ _ => rfl) hm
   cases h1 : udtInto p names ts fnames gs data (fit gs.length prevs) with
   | ok r1 rest1 =>
     cases h2 : unmarshalUdtStruct p names ts fnames gs data (zeroOfs gs) with
